@@ -36,11 +36,11 @@ def cells(tier, seed):
         for mode in MODES4:
             for _ in range(reps):
                 out.append({'wc': w, 'wr': w, 'form': 2, 'mode': mode, 'shape': [rnd.choice(HS), rnd.choice(WS)],
-                            'N': rnd.choice([1, 2]), 'C': rnd.choice([1, 2, 3])})
+                            'N': rnd.choice([1, 2, 4]), 'C': rnd.choice([1, 2, 3, 4, 5])})
                 w2 = rnd.choice([v for v in waves if refs.flen(v) != refs.flen(w)])
                 out.append({'wc': w, 'wr': w2, 'form': 4, 'mode': mode,
-                            'shape': [rnd.choice(HS), rnd.choice(WS)], 'N': rnd.choice([1, 2]),
-                            'C': rnd.choice([1, 2, 3])})
+                            'shape': [rnd.choice(HS), rnd.choice(WS)], 'N': rnd.choice([1, 2, 4]),
+                            'C': rnd.choice([1, 2, 3, 4, 5])})
                 if rnd.random() < 0.3:
                     out.append(dict(out[-rnd.choice([1, 2])], tensors=True))
     # histories: consecutive calls with different wavelets of EQUAL filter length and the same channel
@@ -53,7 +53,7 @@ def cells(tier, seed):
     for g in groups:
         for _ in range(1 if tier == 'quick' else 4):
             out.append({'sequence': rnd.sample(g, min(len(g), 4)), 'mode': rnd.choice(MODES4), 'shape': [rnd.choice([6, 8, 9]), rnd.choice([6, 7, 12])],
-                        'N': 1, 'C': rnd.choice([2, 3]), 'form': 2, 'wc': g[0], 'wr': g[0]})
+                        'N': 1, 'C': rnd.choice([2, 3, 4]), 'form': 2, 'wc': g[0], 'wr': g[0]})
     rnd.shuffle(out)
     return out
 
